@@ -60,7 +60,8 @@ J gen(uint64_t seed, bool thorough) {
   bool cap = r.chance(0.4), apply = !r.chance(0.15), hidej = r.chance(0.3);
   std::string abf = "abf {\n  name abf\n  colvars " + names + "\n  fullSamples " + std::to_string(full) + "\n  minSamples " + std::to_string(mins) + "\n";
   std::vector<double> maxf;
-  if (cap) { abf += "  maxForce"; for (int i = 0; i < ncv; i++) { double mf = std::round(r.uniform(0.05, 3.0) * 1000) / 1000; maxf.push_back(mf); abf += " " + num(mf); } abf += "\n"; }
+  if (cap) { abf += "  maxForce"; for (int i = 0; i < ncv; i++) { bool angular = cvs[(size_t)i].kind == "dihedral" || cvs[(size_t)i].kind == "angle";   // (forces per degree are a hundred times smaller than forces per length: the cap must be able to bind)
+      double mf = angular ? std::round(r.uniform(0.001, 0.06) * 100000) / 100000 : std::round(r.uniform(0.05, 3.0) * 1000) / 1000; maxf.push_back(mf); abf += " " + num(mf); } abf += "\n"; }
   if (!apply) abf += "  applyBias off\n";
   if (hidej) abf += "  hideJacobian on\n";
   abf += "}\n";
